@@ -66,7 +66,7 @@ for _d, _k in ((("time", "n_face"), "face"), (("n_face",), "face"), (("n_node",)
 
 
 # Grid.copy itself (C10, C19): a NEW Grid built from a DEEP copy of the dataset, same format tag and dimension mapping
-contract("uxarray.grid.grid.Grid.copy", props=["C10", "C19"],
+contract("uxarray.grid.grid.Grid.copy", props=["C10", "C19", "C20"],
          params={"self": "obj('Grid')"}, returns="opaque",
          ensures=["not same(result, self)",
                   "constructed(result, 'Grid', dscopy(self._ds, deep=True), source_grid_spec=self.source_grid_spec, "
